@@ -62,15 +62,13 @@ theorem stealAssign_tail (cfg : Cfg) (c o a' : Nat) (hne : c ≠ o) (w0 w1 : Wor
     destination holds what the source held, the source is empty/inlined/valid, nobody else is touched.
     `hown`: the allocator the destination ends up with is the one that owns the block (it propagates, or the two
     compare equal). -/
-theorem move_assign_steals_sys (cfg : Cfg) (w : World α) (U A : List Nat) (c o : Nat) (hs : SysAll cfg w U A)
+theorem stealAssign_sys (cfg : Cfg) (w : World α) (U A : List Nat) (c o : Nat) (hs : SysAll cfg w U A)
     (hc : c ∈ A) (ho : o ∈ A) (hne : c ≠ o) (h : StealAllowed (w.hdr c) (w.hdr o))
-    (hi : InterchangeableMove cfg (w.hdr c) (w.hdr o))
     (hown : maybeMove cfg.policy (w.hdr c).alloc (w.hdr o).alloc = (w.hdr o).alloc) :
-    ∃ w', moveAssign cfg c o w = .ok () w' ∧ SysAll cfg w' U A ∧
+    ∃ w', stealAssign cfg c o w w = .ok () w' ∧ SysAll cfg w' U A ∧
       (∀ xs, Holds w o xs → Holds w' c xs) ∧ Holds w' o [] ∧ (w'.hdr c).data = (w.hdr o).data ∧
       (∀ d ∈ A, d ≠ o → d ≠ c → w'.hdr d = w.hdr d ∧ w'.mem (w.hdr d).data = w.mem (w.hdr d).data) := by
   have hne' : o ≠ c := fun e => hne e.symm
-  rw [move_assign_steals cfg c o w h hi]
   unfold stealAssign
   have hd := SysAll.dtor hs hc
   unfold dtor at hd
@@ -105,5 +103,16 @@ theorem move_assign_steals_sys (cfg : Cfg) (w : World α) (U A : List Nat) (c o 
       have hd1 : d ∈ A.filter (· ≠ c) := List.mem_filter.mpr ⟨hd, by simpa using hdc⟩
       refine ⟨by rw [had.2.2.2.1 d hd1 hdo, hh1], ?_⟩
       rw [had.2.2.2.2]; exact hmem1 d hd hdc
+
+/-- … stated for the whole `operator= (small_vector&&)` -/
+theorem move_assign_steals_sys (cfg : Cfg) (w : World α) (U A : List Nat) (c o : Nat) (hs : SysAll cfg w U A)
+    (hc : c ∈ A) (ho : o ∈ A) (hne : c ≠ o) (h : StealAllowed (w.hdr c) (w.hdr o))
+    (hi : InterchangeableMove cfg (w.hdr c) (w.hdr o))
+    (hown : maybeMove cfg.policy (w.hdr c).alloc (w.hdr o).alloc = (w.hdr o).alloc) :
+    ∃ w', moveAssign cfg c o w = .ok () w' ∧ SysAll cfg w' U A ∧
+      (∀ xs, Holds w o xs → Holds w' c xs) ∧ Holds w' o [] ∧ (w'.hdr c).data = (w.hdr o).data ∧
+      (∀ d ∈ A, d ≠ o → d ≠ c → w'.hdr d = w.hdr d ∧ w'.mem (w.hdr d).data = w.mem (w.hdr d).data) := by
+  rw [move_assign_steals cfg c o w h hi]
+  exact stealAssign_sys cfg w U A c o hs hc ho hne h hown
 
 end SvModel.C09
